@@ -115,7 +115,8 @@ def figure_level(ctx, rng, d, ds, ems, polys, centres, gdims, shape, case):
             if not bad:
                 plotted = [flat['s'][f0][k] for k in want_cells if flat['s'][f0][k] == flat['s'][f0][k]]
                 clim = pcs[0].get_clim()
-                if plotted and (clim[0] != min(plotted) or clim[1] != max(plotted)):
+                # (a colour bar on a single value: matplotlib itself widens limits that coincide - nothing to compare then)
+                if plotted and min(plotted) != max(plotted) and (clim[0] != min(plotted) or clim[1] != max(plotted)):
                     bad = f'plot_on_figure: colour limits {clim}, the plotted values span ({min(plotted)}, {max(plotted)})'
             if bad:
                 ctx.report('property', bad, dict(case, through='plot_on_figure'))
@@ -139,7 +140,7 @@ def figure_level(ctx, rng, d, ds, ems, polys, centres, gdims, shape, case):
             return
         allv = [flat['s'][f][k] for f in range(nt) for k in want_cells if flat['s'][f][k] == flat['s'][f][k]]
         clim = pcs[0].get_clim()
-        if allv and (clim[0] != min(allv) or clim[1] != max(allv)):
+        if allv and min(allv) != max(allv) and (clim[0] != min(allv) or clim[1] != max(allv)):
             ctx.report('property', f'animate_on_figure: colour limits {clim}, the values plotted over the series span ({min(allv)}, {max(allv)})',
                        dict(case, through='animate_on_figure'))
             return
